@@ -511,6 +511,13 @@ def gen_mmcif_dom(rng):
         r = rng.random()
         if r < 0.15:
             return b'?'
+        if r > 0.72:
+            # numbers in every CIF spelling: sign, leading zeros, missing integer/fraction part, exponent, s.u.
+            mant = rng.choice([b'1', b'12', b'0', b'007', b'1.5', b'12.345', b'.5', b'5.', b'0.25', b'100', b'3.14159'])
+            sign = rng.choice([b'', b'', b'-', b'+'])
+            exp = rng.choice([b'', b'', b'', b'e2', b'E-3', b'e+10'])
+            su = rng.choice([b'', b'', b'(3)', b'(12)'])
+            return sign + mant + exp + su
         body = rng.choice(b"abcXYZ") .to_bytes(1, 'big') + rand_from(rng, b"abcXYZ019 .,;_#$?-'", rng.choice([0, 1, 3, 8]))
         if r < 0.5 and b' ' not in body and b"'" not in body and b'#' not in body[:1] and b'$' not in body[:1]:
             return body if all(c in ORD for c in body) else b"'" + body.replace(b"'", b"") + b"'"
